@@ -221,6 +221,141 @@ theorem noKeyNative_spec {ins : Instr} (h : noKeyNative ins = true) (n : Int) :
     ins ≠ .callNative .index n ∧ ins ≠ .callNative .getpath n := by
   constructor <;> (intro heq; subst heq; simp [noKeyNative] at h)
 
+/-- an outcome whose tag is 1 is an error (to exhibit the hypothesis `next … = (.error e, s')` on
+    concrete runs by evaluation) -/
+theorem error_of_tag {r : Outcome × St} (h : r.1.tag = 1) : ∃ e s', r = (.error e, s') := by
+  obtain ⟨o, s⟩ := r
+  cases o <;> simp [Outcome.tag] at h
+  exact ⟨_, _, rfl⟩
+
+/-! ## `KeysOK` decided on a concrete run that ends -/
+
+/-- `keyOK` as a Boolean -/
+def keyOKb (ins : Instr) (stk : List V) (x : ExtRec) : Bool :=
+  match ins, x.call with
+  | .callNative .index _, some (.val _) =>
+    (match stk with
+     | _ :: _ :: a1 :: _ => notNullV a1
+     | _ => false)
+  | .callNative .getpath _, some (.val _) =>
+    (match stk with
+     | _ :: .jv (.arr ps) :: _ => ps.all fun p => match p with | .null => false | _ => true
+     | _ => false)
+  | _, _ => true
+
+theorem keyOK_of_b {ins : Instr} {stk : List V} {x : ExtRec} (h : keyOKb ins stk x = true) : keyOK ins stk x := by
+  unfold keyOK
+  unfold keyOKb at h
+  split
+  · rename_i n w hc
+    simp only [hc] at h
+    split at h
+    · rename_i x0 a0 a1 r
+      exact ⟨x0, a0, a1, r, rfl, notNullV_ne h⟩
+    · cases h
+  · rename_i n w hc
+    simp only [hc] at h
+    split at h
+    · rename_i x0 ps r
+      refine ⟨x0, ps, r, rfl, fun hmem => ?_⟩
+      have := List.all_eq_true.mp h _ hmem
+      simp at this
+    · cases h
+  · trivial
+
+/-- the turn that follows a turn, across calls (whatever the outcome of a call) -/
+def succTurn (P : Params) (t : L × St) : L × St :=
+  match step P t.1 t.2 with
+  | .cont l' s' => (l', s')
+  | .fin _ s' => (entry P s', s')
+
+/-- the `j`-th turn after `t` -/
+def turnFrom (P : Params) : Nat → L × St → L × St
+  | 0, t => t
+  | j + 1, t => turnFrom P j (succTurn P t)
+
+theorem turnFrom_succ (P : Params) : ∀ (j : Nat) (t : L × St),
+    turnFrom P (j + 1) t = succTurn P (turnFrom P j t) := by
+  intro j
+  induction j with
+  | zero => intro t; rfl
+  | succ j ih => intro t; rw [turnFrom, ih]; rfl
+
+/-- every turn of the run is one of the turns `turnFrom` enumerates -/
+theorem reach_turnFrom {P : Params} {s0 : St} {l : L} {s : St} (h : Reach P s0 l s) :
+    ∃ j, turnFrom P j (entry P s0, s0) = (l, s) := by
+  induction h with
+  | init => exact ⟨0, rfl⟩
+  | turn _ hs ih =>
+    obtain ⟨j, hj⟩ := ih
+    exact ⟨j + 1, by rw [turnFrom_succ, hj]; simp only [succTurn, hs]⟩
+  | call _ hs _ ih =>
+    obtain ⟨j, hj⟩ := ih
+    exact ⟨j + 1, by rw [turnFrom_succ, hj]; simp only [succTurn, hs]⟩
+
+/-- a turn of an exhausted iterator: past the end, no fork, no error -/
+def TermT (P : Params) (t : L × St) : Prop :=
+  (P.code.size : Int) ≤ t.1.pc ∧ t.2.env.forks = [] ∧ t.1.err = none
+
+theorem TermT.succ {P : Params} {t : L × St} (h : TermT P t) : TermT P (succTurn P t) := by
+  obtain ⟨h1, h2, h3⟩ := h
+  have hst : step P t.1 t.2 = .fin .done (t.2.save P.code.size) := by
+    unfold step
+    rw [if_neg (by omega)]
+    unfold unwind
+    simp only [h2, finish, h3]
+  unfold succTurn
+  rw [hst]
+  exact ⟨by simp [entry, St.save], by simp [St.save, h2], rfl⟩
+
+theorem TermT.keys {P : Params} {t : L × St} (h : TermT P t) :
+    keyOK (P.code.getD t.1.pc.toNat .bad) (stackList t.2.env.stack) (P.ext t.2.polls) := by
+  have hbad : P.code.getD t.1.pc.toNat .bad = .bad := by
+    have : ¬ t.1.pc.toNat < P.code.size := by have := h.1; omega
+    simp [Array.getD, this]
+  rw [hbad]
+  unfold keyOK
+  split
+  · rename_i hi _; cases hi
+  · rename_i hi _; cases hi
+  · trivial
+
+/-- check `keyOK` on `k` turns from `t`, then that the turn reached is one of an exhausted iterator -/
+def keysRun (P : Params) : Nat → L × St → Bool
+  | 0, t => decide ((P.code.size : Int) ≤ t.1.pc) && t.2.env.forks.isEmpty && t.1.err.isNone
+  | k + 1, t =>
+    keyOKb (P.code.getD t.1.pc.toNat .bad) (stackList t.2.env.stack) (P.ext t.2.polls) && keysRun P k (succTurn P t)
+
+theorem keysRun_sound (P : Params) : ∀ (k : Nat) (t : L × St), keysRun P k t = true → ∀ j,
+    keyOK (P.code.getD (turnFrom P j t).1.pc.toNat .bad) (stackList (turnFrom P j t).2.env.stack)
+      (P.ext (turnFrom P j t).2.polls) := by
+  intro k
+  induction k with
+  | zero =>
+    intro t h
+    simp only [keysRun, Bool.and_eq_true, decide_eq_true_eq, List.isEmpty_iff, Option.isNone_iff_eq_none] at h
+    have hT : TermT P t := ⟨h.1.1, h.1.2, h.2⟩
+    have : ∀ j t, TermT P t → TermT P (turnFrom P j t) := by
+      intro j
+      induction j with
+      | zero => intro t ht; exact ht
+      | succ j ih => intro t ht; exact ih _ ht.succ
+    exact fun j => (this j t hT).keys
+  | succ k ih =>
+    intro t h j
+    simp only [keysRun, Bool.and_eq_true] at h
+    cases j with
+    | zero => exact keyOK_of_b h.1
+    | succ j => exact ih _ h.2 j
+
+/-- `KeysOK` for a concrete run that ends within `k` turns: decided by evaluation -/
+theorem keysOK_of_run (P : Params) (s0 : St) (k : Nat) (h : keysRun P k (entry P s0, s0) = true) : KeysOK P s0 := by
+  intro l s hR
+  obtain ⟨j, hj⟩ := reach_turnFrom hR
+  have := keysRun_sound P k _ h j
+  rw [hj] at this
+  exact this
+
 /-- `SafeHist2` read pointwise -/
 theorem SafeHist2.get' : ∀ {hs : List Outcome}, SafeHist2 hs → ∀ (k : Nat) (hk : k < hs.length),
     (∀ (j : Nat) (hj : j < k), Proper (hs[j]'(Nat.lt_trans hj hk))) → NoPanic hs[k]
